@@ -1,3 +1,4 @@
 """Sidecar contracts and harnesses for /repo/code_data.  Importing this package registers every harness.
 /repo is never annotated; each harness re-reads the function source from /repo when it runs."""
 from . import c_blocks  # noqa: F401
+from . import c_args  # noqa: F401
